@@ -24,7 +24,8 @@ pub fn point(name: &str) {
     let n = VH_POINTS.fetch_add(1, AtOrd::SeqCst);
     if let Ok(f) = std::env::var("RJRSSYNC_VERIF_POINT_LOG") {
         if let Ok(mut fh) = std::fs::OpenOptions::new().create(true).append(true).open(f) {
-            let _ = writeln!(fh, "{} {}", n, name);
+            let line = format!("{} {}\n", n, name);
+            let _ = fh.write_all(line.as_bytes());
         }
     }
     if let Ok(v) = std::env::var("RJRSSYNC_VERIF_CRASH_AT") {
@@ -59,7 +60,8 @@ pub fn is_mutating(c: &Command) -> bool {
 pub fn inject(c: &Command) -> Option<String> {
     if let Ok(f) = std::env::var("RJRSSYNC_VERIF_CMD_LOG") {
         if let Ok(mut fh) = std::fs::OpenOptions::new().create(true).append(true).open(f) {
-            let _ = writeln!(fh, "{:?} {}", std::thread::current().name().unwrap_or("?"), super::verif_hooks::describe_command(c));
+            let line = format!("{:?} {}\n", std::thread::current().name().unwrap_or("?"), describe_command(c));
+            let _ = fh.write_all(line.as_bytes());
         }
     }
     if is_mutating(c) {
